@@ -166,7 +166,7 @@ func (n *patNet) setG2C(seq uint8, id uint32) {
 }
 
 var (
-	nScenarios, nSends, nBus, nInbound, nPhantomKnown int64
+	nScenarios, nSends, nBus, nInbound, nPhantomKnown, nReconnects, nConnFail int64
 	appliedTotal                                      = map[string]int64{}
 	porc                                              = map[string]int64{}
 	statMu                                            sync.Mutex
@@ -183,6 +183,7 @@ type result struct {
 	hung     bool
 	stacks   []string
 	connFail string
+	noReconnect string
 }
 
 const (
@@ -194,14 +195,44 @@ func cfg() knx.TunnelConfig {
 	return knx.TunnelConfig{ResendInterval: R, HeartbeatInterval: 10 * time.Minute, ResponseTimeout: T}
 }
 
-// scenario runs one enumerated pattern.
-func scenario(outPat, inPat []string) result {
-	res := result{sig: "enum out=" + strings.Join(outPat, ",") + " in=" + strings.Join(inPat, ",")}
+// phase is one connection epoch of an enumerated scenario: the patterns of its
+// exchanges in both directions and how the connection ends afterwards ("" =
+// it does not, "disc" = the gateway sends a disconnect request, "hb" = the
+// gateway answers the next heartbeat with "unknown connection").
+type phase struct {
+	out, in   []string
+	reconnect string
+}
+
+func single(out, in []string) []phase { return []phase{{out: out, in: in}} }
+
+// scenario runs one enumerated pattern: per phase the exchanges of both
+// directions run concurrently; between phases the client is made to reconnect
+// (new channel, all four counters restart) and the telegram ids keep counting.
+func scenario(phases []phase) result {
+	var outPat, inPat []string
+	sig := "enum"
+	config := cfg()
+	for i, ph := range phases {
+		outPat = append(outPat, ph.out...)
+		inPat = append(inPat, ph.in...)
+		if i > 0 {
+			sig += " |"
+		}
+		sig += " out=" + strings.Join(ph.out, ",") + " in=" + strings.Join(ph.in, ",")
+		if ph.reconnect != "" {
+			sig += " then " + ph.reconnect
+		}
+		if ph.reconnect == "hb" {
+			config.HeartbeatInterval = 5 * time.Millisecond
+		}
+	}
+	res := result{sig: sig}
 	s := memsock.New("udp")
 	pn := &patNet{out: outPat, in: inPat, copies: map[uint32]int{}, ackAct: map[string][]gateway.Action{}, applied: map[byte]int{}}
 	gw := gateway.NewGateway(s, pn.policy)
 	gw.Attempts = 40
-	c, err := tun.Start(s, cfg())
+	c, err := tun.Start(s, config)
 	if err != nil {
 		res.connFail = err.Error()
 		return res
@@ -229,23 +260,56 @@ func scenario(outPat, inPat []string) result {
 	done := make(chan struct{})
 	go func() {
 		defer close(done)
-		var wg sync.WaitGroup
-		wg.Add(2)
-		go func() {
-			defer wg.Done()
-			// one extra healthy exchange at the end probes the state left behind
-			for e := 0; e <= len(outPat); e++ {
-				c.Send(0, uint32(e+1))
+		outBase, inBase := 0, 0
+		for pi, ph := range phases {
+			last := pi == len(phases)-1
+			var wg sync.WaitGroup
+			wg.Add(2)
+			go func() {
+				defer wg.Done()
+				// one extra healthy exchange at the very end probes the state left behind
+				k := len(ph.out)
+				if last {
+					k++
+				}
+				for e := 0; e < k; e++ {
+					c.Send(0, uint32(outBase+e+1))
+				}
+			}()
+			go func() {
+				defer wg.Done()
+				k := len(ph.in)
+				if last {
+					k++
+				}
+				for e := 0; e < k; e++ {
+					pn.setG2C(uint8(e), uint32(1001+inBase+e))
+					gw.SendToClient(uint32(1001 + inBase + e))
+				}
+			}()
+			wg.Wait()
+			outBase += len(ph.out)
+			inBase += len(ph.in)
+			if ph.reconnect == "" {
+				continue
 			}
-		}()
-		go func() {
-			defer wg.Done()
-			for e := 0; e <= len(inPat); e++ {
-				pn.setG2C(uint8(e), uint32(1001+e))
-				gw.SendToClient(uint32(1001 + e))
+			ep := gw.Epoch()
+			if ph.reconnect == "disc" {
+				gw.Disconnect()
+			} else {
+				gw.FailNextHeartbeat()
 			}
-		}()
-		wg.Wait()
+			dl := time.Now().Add(5 * time.Second)
+			for gw.Epoch() == ep && time.Now().Before(dl) {
+				time.Sleep(100 * time.Microsecond)
+			}
+			if gw.Epoch() == ep {
+				res.noReconnect = "no new connect request within 5 s after the gateway ended the connection (" + ph.reconnect + ")"
+				return
+			}
+			atomic.AddInt64(&nReconnects, 1)
+			time.Sleep(300 * time.Microsecond)
+		}
 	}()
 	select {
 	case <-done:
@@ -290,17 +354,22 @@ func scenario(outPat, inPat []string) result {
 
 // randomRun: G senders, n Sends, random faults on both directions, a
 // concurrent stream of gateway->client telegrams.
-func randomRun(seed int64, G, n int) result {
-	res := result{sig: fmt.Sprintf("random G=%d n=%d seed=%d", G, n, seed)}
+func randomRun(seed int64, G, n int, reconnects int) result {
+	res := result{sig: fmt.Sprintf("random G=%d n=%d seed=%d reconnects=%d", G, n, seed, reconnects)}
 	s := memsock.New("udp")
 	gw := gateway.NewGateway(s, gateway.RandomPolicy(rand.New(rand.NewSource(seed)), 0.12, 0.10, 0.10))
 	gw.Attempts = 60
-	c, err := tun.Start(s, knx.TunnelConfig{ResendInterval: R, HeartbeatInterval: 10 * time.Minute, ResponseTimeout: 60 * time.Millisecond})
+	rcfg := knx.TunnelConfig{ResendInterval: R, HeartbeatInterval: 10 * time.Minute, ResponseTimeout: 60 * time.Millisecond}
+	if reconnects > 0 {
+		rcfg.HeartbeatInterval = 6 * time.Millisecond
+	}
+	c, err := tun.Start(s, rcfg)
 	if err != nil {
 		res.connFail = err.Error()
 		return res
 	}
 	var rmu sync.Mutex
+	var sendsDone int64
 	stop := make(chan struct{})
 	cons := make(chan struct{})
 	go func() {
@@ -334,6 +403,7 @@ func randomRun(seed int64, G, n int) result {
 			defer wg.Done()
 			for i := 0; i < n/G; i++ {
 				c.Send(g, uint32(g*100000+i+1))
+				atomic.AddInt64(&sendsDone, 1)
 			}
 		}(g)
 	}
@@ -341,9 +411,38 @@ func randomRun(seed int64, G, n int) result {
 	go func() {
 		defer wg.Done()
 		for i := 0; i < n*2; i++ {
-			gw.SendToClient(uint32(5000000 + i))
+			if !gw.SendToClient(uint32(5000000+i)) && !gw.Connected() {
+				time.Sleep(200 * time.Microsecond) // between two connections
+			}
 		}
 	}()
+	if reconnects > 0 {
+		// the gateway ends the connection while senders and inbound traffic keep going
+		wg.Add(1)
+		go func() {
+			defer wg.Done()
+			for k := 1; k <= reconnects; k++ {
+				dl := time.Now().Add(20 * time.Second)
+				for atomic.LoadInt64(&sendsDone) < int64(k*n/(reconnects+1)) && time.Now().Before(dl) {
+					time.Sleep(500 * time.Microsecond)
+				}
+				ep := gw.Epoch()
+				if k%2 == 1 {
+					gw.Disconnect()
+				} else {
+					gw.FailNextHeartbeat()
+				}
+				dl = time.Now().Add(5 * time.Second)
+				for gw.Epoch() == ep && time.Now().Before(dl) {
+					time.Sleep(200 * time.Microsecond)
+				}
+				if gw.Epoch() == ep {
+					return
+				}
+				atomic.AddInt64(&nReconnects, 1)
+			}
+		}()
+	}
 	done := make(chan struct{})
 	go func() { wg.Wait(); close(done) }()
 	select {
@@ -407,7 +506,17 @@ func judge(res result) {
 		return map[string]interface{}{"scenario": res.sig, "telegrams": ids, "history": history(res, ids), "bus": busIDs(res.bus)}
 	}
 	if res.connFail != "" {
-		r.Violate("connect.failed", nil, map[string]interface{}{"scenario": res.sig}, "connect failed: %s", res.connFail)
+		// the initial connect is a precondition of the scenario, not its subject: a
+		// response timeout there (a frozen process) leaves nothing to judge
+		if n := atomic.AddInt64(&nConnFail, 1); n > 20 {
+			r.Violate("connect.failed", nil, map[string]interface{}{"scenario": res.sig}, "the initial connect failed in %d scenarios (last: %s)", n, res.connFail)
+		} else {
+			r.Inconclusive(fmt.Sprintf("[%s] initial connect failed (%s); scenario not run", res.sig, res.connFail))
+		}
+		return
+	}
+	if res.noReconnect != "" {
+		r.Violate("reconnect.missing", nil, hist(), "[%s] %s", res.sig, res.noReconnect)
 		return
 	}
 	if res.hung {
@@ -669,17 +778,50 @@ func run(rr *mon.Run) {
 	outPats := exchangePatterns(terminalsOut)
 	inPats := exchangePatterns([]byte{fK})
 	rng := rand.New(rand.NewSource(r.Seed()*977 + 3))
-	type job struct{ out, in []string }
+	type job struct{ ph []phase }
+	pick := func(ps []string) string { return ps[rng.Intn(len(ps))] }
+	kinds := []string{"disc", "hb"}
 	var jobs []job
 	if r.Thorough() {
 		for _, a := range outPats {
 			for _, b := range outPats {
-				jobs = append(jobs, job{[]string{a, b}, []string{inPats[rng.Intn(len(inPats))], inPats[rng.Intn(len(inPats))]}})
+				jobs = append(jobs, job{single([]string{a, b}, []string{inPats[rng.Intn(len(inPats))], inPats[rng.Intn(len(inPats))]})})
 			}
 		}
+		// two epochs: every pattern in the last exchange before the reconnect x every
+		// one- or no-fault pattern in the first exchange after it x both ways of ending
+		// the connection; the same for the gateway->client direction
+		short := []string{"K", "LK", "AK", "DK", "HK", "RK", "QK", "XK", "YK"}
+		for _, a := range outPats {
+			for _, b := range short {
+				for _, k := range kinds {
+					jobs = append(jobs, job{[]phase{{out: []string{a}, in: []string{pick(inPats)}, reconnect: k}, {out: []string{b}, in: []string{pick(inPats)}}}})
+				}
+			}
+		}
+		for _, a := range inPats {
+			for _, b := range inPats {
+				jobs = append(jobs, job{[]phase{{out: []string{pick(outPats)}, in: []string{a}, reconnect: kinds[rng.Intn(2)]}, {out: []string{"K"}, in: []string{b}}}})
+			}
+		}
+		for i := 0; i < 6000; i++ {
+			var ph []phase
+			for e := 0; e < 2+i%3; e++ {
+				p := phase{reconnect: kinds[rng.Intn(2)]}
+				for j := 0; j < 1+rng.Intn(3); j++ {
+					p.out = append(p.out, pick(outPats))
+				}
+				for j := 0; j < rng.Intn(4); j++ {
+					p.in = append(p.in, pick(inPats))
+				}
+				ph = append(ph, p)
+			}
+			ph[len(ph)-1].reconnect = ""
+			jobs = append(jobs, job{ph})
+		}
 		for i := 0; i < 12000; i++ {
-			jobs = append(jobs, job{[]string{outPats[rng.Intn(len(outPats))], outPats[rng.Intn(len(outPats))], outPats[rng.Intn(len(outPats))]},
-				[]string{inPats[rng.Intn(len(inPats))], inPats[rng.Intn(len(inPats))], inPats[rng.Intn(len(inPats))]}})
+			jobs = append(jobs, job{single([]string{outPats[rng.Intn(len(outPats))], outPats[rng.Intn(len(outPats))], outPats[rng.Intn(len(outPats))]},
+				[]string{inPats[rng.Intn(len(inPats))], inPats[rng.Intn(len(inPats))], inPats[rng.Intn(len(inPats))]})})
 		}
 		// up to 6 telegrams per direction (sampled)
 		for i := 0; i < 12000; i++ {
@@ -689,15 +831,43 @@ func run(rr *mon.Run) {
 				o = append(o, outPats[rng.Intn(len(outPats))])
 				in = append(in, inPats[rng.Intn(len(inPats))])
 			}
-			jobs = append(jobs, job{o, in})
+			jobs = append(jobs, job{single(o, in)})
 		}
 	} else {
 		// every single-exchange pattern once, then a seeded subset of pairs / triples
 		for _, a := range outPats {
-			jobs = append(jobs, job{[]string{a}, []string{inPats[rng.Intn(len(inPats))]}})
+			jobs = append(jobs, job{single([]string{a}, []string{inPats[rng.Intn(len(inPats))]})})
 		}
 		for _, a := range inPats {
-			jobs = append(jobs, job{[]string{"K"}, []string{a}})
+			jobs = append(jobs, job{single([]string{"K"}, []string{a})})
+		}
+		// two epochs: every pattern in the only exchange before the reconnect, a lost
+		// first request (even) or a seeded pattern (odd) right after it; the connection
+		// ends by disconnect request or by a failed heartbeat in turn
+		for i, a := range outPats {
+			b := "LK"
+			if i%2 == 1 {
+				b = pick(outPats)
+			}
+			jobs = append(jobs, job{[]phase{{out: []string{a}, in: []string{pick(inPats)}, reconnect: kinds[(i/2)%2]}, {out: []string{b}, in: []string{pick(inPats)}}}})
+		}
+		for i, a := range inPats {
+			jobs = append(jobs, job{[]phase{{out: []string{pick(outPats)}, in: []string{a}, reconnect: kinds[i%2]}, {out: []string{"K"}, in: []string{pick(inPats)}}}})
+		}
+		for i := 0; i < 120; i++ {
+			var ph []phase
+			for e := 0; e < 2+i%3; e++ {
+				p := phase{reconnect: kinds[rng.Intn(2)]}
+				for j := 0; j < 1+rng.Intn(3); j++ {
+					p.out = append(p.out, pick(outPats))
+				}
+				for j := 0; j < rng.Intn(4); j++ {
+					p.in = append(p.in, pick(inPats))
+				}
+				ph = append(ph, p)
+			}
+			ph[len(ph)-1].reconnect = ""
+			jobs = append(jobs, job{ph})
 		}
 		for i := 0; i < 600; i++ {
 			k := 2 + i%5
@@ -706,7 +876,7 @@ func run(rr *mon.Run) {
 				o = append(o, outPats[rng.Intn(len(outPats))])
 				in = append(in, inPats[rng.Intn(len(inPats))])
 			}
-			jobs = append(jobs, job{o, in})
+			jobs = append(jobs, job{single(o, in)})
 		}
 	}
 	r.Observe("enumerated_scenarios", len(jobs))
@@ -731,13 +901,13 @@ func run(rr *mon.Run) {
 				if r.Enough() {
 					continue
 				}
-				r.Crumb("C05 enum out=%v in=%v", j.out, j.in)
-				judge(scenario(j.out, j.in))
+				r.Crumb("C05 enum %v", j.ph)
+				judge(scenario(j.ph))
 			}
 		}()
 	}
 	wg.Wait()
-	nr := r.Pick(4, 100)
+	nr := r.Pick(6, 100)
 	if v := os.Getenv("C05_RANDOM_ONLY"); v != "" {
 		fmt.Sscan(v, &nr)
 	}
@@ -745,7 +915,7 @@ func run(rr *mon.Run) {
 	for i := 0; i < nr && !r.Enough(); i++ {
 		r.Crumb("C05 random %d", i)
 		t0 := time.Now()
-		res := randomRun(r.Seed()*5000+int64(i), []int{1, 4, 8, 2}[i%4], 600)
+		res := randomRun(r.Seed()*5000+int64(i), []int{1, 4, 8, 2}[i%4], 600, []int{0, 5}[(i/2)%2])
 		if d := time.Since(t0); d > slowest {
 			slowest = d
 		}
@@ -777,6 +947,7 @@ func run(rr *mon.Run) {
 	r.Observe("faults_applied_by_kind", appliedTotal)
 	r.Observe("porcupine_verdicts", porc)
 	r.Observe("phantom_success_known_pattern", nPhantomKnown)
+	r.Observe("reconnects_between_exchanges", nReconnects)
 	r.Assume("the gateway model (internal/gateway) follows the tunnelling rules; faults are applied to tunnelling frames only")
 	r.Assume("bounded fault patterns against the real modulus-256 client; the composed state space is sampled and enumerated to the stated bounds, not exhausted")
 	if nBus == 0 || nInbound == 0 {
